@@ -558,6 +558,13 @@ impl Display for ClientImplState {
     }
 }
 
+// Instant + Duration panics on overflow; the options builders accept any Duration (including
+// Duration::MAX), so deadlines are computed with this instead: an unrepresentable deadline is a
+// century away.
+pub(crate) fn add_duration_saturating(base: Instant, duration: Duration) -> Instant {
+    base.checked_add(duration).unwrap_or_else(|| base + Duration::from_secs(100 * 365 * 24 * 3600))
+}
+
 pub(crate) type CallbackSpawnerFunction = Box<dyn Fn(Arc<ClientEvent>, Arc<ClientEventListenerCallback>) + Send + Sync>;
 
 pub(crate) struct MqttClientImpl {
@@ -984,7 +991,7 @@ impl MqttClientImpl {
         debug!("client impl transition_to_state - old state: {}, new_state: {}", old_state, new_state);
 
         if new_state == ClientImplState::Connected {
-            let establishment_timeout = self.last_start_connect_time.unwrap() + self.connect_timeout;
+            let establishment_timeout = add_duration_saturating(self.last_start_connect_time.unwrap(), self.connect_timeout);
             let mut connection_opened_context = NetworkEventContext {
                 event: NetworkEvent::ConnectionOpened(ConnectionOpenedContext{
                     establishment_timeout,
